@@ -37,6 +37,12 @@ def protocol_battery():
     b.append(Scenario("A\n1\n0\n", [("in", "A", 1, 0)], note="no outputs at all"))
     b.append(Scenario("CLK A Y\nC 0 1\nC 1 X\n", S, default_answer=[1, 0], override_write=False,
                       note="driver without write_input override"))
+    b.append(Scenario("CLK A Y\nC 0 1\nC 0 1\nC 0 1\n", S, default_answer=[1, 0], expect={"call_kinds": ["read"] + ["write", "write", "read"] * 3},
+                      note="identical consecutive clock rows"))
+    b.append(Scenario("CLK A Y\nC (Y) 1\nC (Q) X\n", S, default_answer=[1, 0], expect={"call_kinds": ["read"] + ["write", "write", "read"] * 2},
+                      note="clock rows in a test that reads outputs"))
+    b.append(Scenario("A B\n1 2\n", [("out", "Y", 8), ("in", "A", 8, -1), ("in", "B", 4, 0x25), ("bidir", "D", 9, 511)], default_answer=[0, 0],
+                      note="defaults that do not fit their width are sent as given"))
     return b
 
 
@@ -85,6 +91,8 @@ def protocol_judge_one(o, sc):
                 ncalls += 1
         elif it[0] == "end":
             pass
+    if "call_kinds" in sc.expect and [c[1] for c in o.calls] != sc.expect["call_kinds"]:
+        return "driver calls are %s, expected %s (%s)" % ([c[1] for c in o.calls], sc.expect["call_kinds"], sc.note)
     if o.items and o.items[-1][0] == "end":
         if len(o.calls) != ncalls:
             return "%d driver calls were made, %d are accounted for by constructor, rows and error items" % (
